@@ -738,6 +738,10 @@ func runC16(e *env) {
 	// ----- JavaScript side -----
 	c16AutoescapeOn(e, g, cases)
 	c16JS(e, src, cases)
+	// ----- json of every value (c16json.go) -----
+	c16JSON(e)
+	// ----- the soyutils.js helpers against their models, on code units (c16units.go) -----
+	c16Units(e)
 }
 
 func rawQuote(s string) bool {
@@ -794,6 +798,7 @@ type c16NodeIn struct {
 	Code  []string      `json:"code,omitempty"`
 	Evals []string      `json:"evals,omitempty"`
 	Calls []c16NodeCall `json:"calls,omitempty"`
+	Units []c16UnitReq  `json:"units,omitempty"`
 }
 type c16NodeRes struct {
 	Hex string `json:"hex"`
@@ -805,6 +810,7 @@ type c16NodeOut struct {
 	Evals      []c16NodeRes `json:"evals"`
 	Calls      []c16NodeRes `json:"calls"`
 	LoadErrors []string     `json:"load_errors"`
+	Units      []c16UnitRes `json:"units"`
 }
 
 func c16Node(e *env, in c16NodeIn, tag string) (*c16NodeOut, error) {
